@@ -190,6 +190,8 @@ def gen_layout(rng, tier, counters):
         # grow a section after flattening and lay out again
         sid = rng.choice(sorted(secs))
         b, v = gen_sizes(rng)
+        secs[sid]["b"], secs[sid]["v"] = b, v
+        need = layout_end([(x["align"], x["b"], x["v"]) for x in order])
         ops += ["Z %d %d %d %d" % (sid, b, v, rng.randrange(1, 100000)), "C", "F", "L", "C", "P %d 3" % min(layout_end(
             [(s["align"], s["b"], s["v"]) for s in order]) + 70000, 1 << 22)]
         counters["resize_after_flatten"] += 1
@@ -246,9 +248,17 @@ def gen_addrtab(rng, counters):
     seq = far + near
     seq += [rng.choice(seq) for _ in range(rng.randrange(0, 3))] if seq else []
     rng.shuffle(seq)
+    nabs = 0
     for a in seq:
         ops.append("K %d %d" % (a, CALL_LEN))
-    secs[0]["b"] = CALL_LEN * len(seq)
+        if not jit and rng.random() < 0.3:
+            ops.append("E %d" % rng.randrange(0, npre + 1))      # embed_label: absolute address of a label at the end of a section
+            nabs += 1
+    if not jit and rng.random() < 0.3:
+        ops.append("E %d" % rng.randrange(0, npre + 1))
+        nabs += 1
+    secs[0]["b"] = CALL_LEN * len(seq) + 8 * nabs
+    counters["embed_label_sites"] += nabs
     tab_last = True
     if seq:
         secs.append(dict(id=len(secs), order=INT_MAX, align=8, b=0, v=8 * len(set(seq))))
@@ -311,14 +321,20 @@ def le(v, n):
     return bytes((v >> (8 * k)) & 0xFF for k in range(n))
 
 
-def relocated_bytes(calls, base, text_off, tab_off):
-    """x86-64 `call <abs>` sites after relocation, from the instruction set manual (independent of AsmJit and of the Coq model):
-    E8 rel32 (with the 40h REX placeholder in front) when the target is within +-2 GiB of the next instruction placed at `base`,
-    otherwise FF /2 [rip+rel32] through an 8-byte slot of the address table (one slot per distinct target, in order of first use).
-    base None = every target is out of reach wherever the image is placed.  Returns (text bytes, table bytes)."""
+def relocated_bytes(calls, base, text_off, tab_off, sec_off=None):
+    """relocation sites of .text after relocation, from the instruction set manual / the meaning of an embedded label address
+    (independent of AsmJit and of the Coq model).  ("call", pos, target): E8 rel32 (with the 40h REX placeholder in front) when the
+    target is within +-2 GiB of the next instruction placed at `base`, otherwise FF /2 [rip+rel32] through an 8-byte slot of the
+    address table (one slot per distinct target, in order of first use); base None = every target is out of reach wherever the
+    image is placed.  ("abs", pos, section, label offset): the 8-byte absolute address base + offset of the section + label offset.
+    Returns (text bytes, table bytes)."""
     text = bytearray()
     slots = []
-    for pos, target in calls:
+    for c in calls:
+        if c[0] == "abs":
+            text += le((base + sec_off[c[2]] + c[3]) & (W64 - 1), 8)
+            continue
+        _, pos, target = c
         nxt = text_off + pos + 6
         d = None if base is None else target - (base + nxt)
         if d is not None and -(1 << 31) <= d < (1 << 31):
@@ -329,6 +345,10 @@ def relocated_bytes(calls, base, text_off, tab_off):
             rel = tab_off + 8 * slots.index(target) - nxt
             text += b"\xFF\x15" + le(rel & 0xFFFFFFFF, 4)
     return bytes(text), b"".join(le(t, 8) for t in slots)
+
+
+def text_placeholder(calls):
+    return b"".join(b"\x40\xE8\0\0\0\0" if c[0] == "call" else bytes(8) for c in calls)
 
 
 def section_bytes(s):
@@ -418,16 +438,33 @@ def judge(line, ans):
                 out.append(("C10/harness/emit-call", "call emission failed: %s" % a))
                 return out
             addr = int(toks[i - 2])
-            calls.append((secs[0]["b"], addr))
+            calls.append(("call", secs[0]["b"], addr))
             secs[0]["b"] = int(a[5:])
             secs[0]["seed"] = None
-            secs[0]["data"] = b"\x40\xE8\0\0\0\0" * len(calls)
+            secs[0]["data"] = text_placeholder(calls)
             if addr not in addrs:   # every distinct absolute target reserves one 8-byte slot in `.addrtab` (created on demand)
                 addrs.add(addr)
                 if tab is None:
                     tab = len(secs)
                     secs[tab] = dict(id=tab, order=INT_MAX, align=8, b=0, v=0, seed=None, name=b".addrtab", off=SIZE_MAX)
                 secs[tab]["v"] += 8
+            last_flat_end = None
+            flattened_clean = False
+        elif op == "E":
+            target = int(toks[i + 1]); i += 2
+            a = nxt()
+            p = a.split(":")
+            if p[1] != "ok":
+                if target in secs:
+                    out.append(("C10/harness/embed-label", "embed_label failed: %s" % a))
+                    return out
+                continue
+            if int(p[3]) != secs[target]["b"]:
+                out.append(("C10/harness/embed-label", "label bound at %s, the section holds %d bytes" % (p[3], secs[target]["b"])))
+            calls.append(("abs", secs[0]["b"], target, int(p[3])))
+            secs[0]["b"] = int(p[2])
+            secs[0]["seed"] = None
+            secs[0]["data"] = text_placeholder(calls)
             last_flat_end = None
             flattened_clean = False
         elif op == "I":
@@ -514,6 +551,29 @@ def judge(line, ans):
                             if last_flat is not None and flattened_clean and rs and last_flat.get(s["id"]) != (off, nv, nb):
                                 out.append(("C10/flatten/not-idempotent", "second flatten() moved/resized non-empty section %d: (offset, vsize, bsize) %s -> %s" % (
                                     s["id"], last_flat.get(s["id"]), (off, nv, nb))))
+                        # an empty section must sit where the next non-empty section starts (or at the end): the only place where
+                        # another flatten() leaves it, so that labels bound in it have ONE position
+                        nxo = end
+                        run_off = {}            # where the forward loop alone leaves an empty section: the unextended end of its predecessors
+                        o = 0
+                        for s, r in zip(order, rows):
+                            if max(s["b"], s["v"]):
+                                o = r[3] + max(s["b"], s["v"])
+                            else:
+                                run_off[s["id"]] = o
+                        for s, r in reversed(list(zip(order, rows))):
+                            if max(s["b"], s["v"]):
+                                nxo = r[3]
+                                continue
+                            moved = last_flat is not None and flattened_clean and last_flat.get(s["id"]) != (r[3], r[4], r[5])
+                            if r[3] != nxo:
+                                # the recorded shape of the residual defect: the section sits at its predecessors' unextended end
+                                key = "C10/flatten/empty-section-not-final" if r[3] == run_off[s["id"]] else "C10/flatten/empty-section-misplaced"
+                                out.append((key, "empty section %d placed at %d, the next non-empty section / the end is at %d "
+                                            "(a second flatten() moves it and every label bound in it)" % (s["id"], r[3], nxo)))
+                            elif moved:
+                                out.append(("C10/flatten/empty-section-not-final", "second flatten() moved EMPTY section %d: %s -> %s" % (
+                                    s["id"], last_flat.get(s["id"]), (r[3], r[4], r[5]))))
                         if newend != end:
                             out.append(("C10/flatten/end-moved", "layout ends at %d after extension, sections need %d" % (newend, end)))
                         last_flat_end = end
@@ -582,10 +642,13 @@ def judge(line, ans):
                     out.append(("C10/addrtab/reduction-wrong", "relocate_to_base reported a reduction of %d, expected %d (%d of %d slots used, table %s)" % (
                         red, exp_red, used_slots, secs[tab]["v"] // 8, "last" if is_last else "not last")))
                 tab_expect = (8 * used_slots, 8 * used_slots if is_last else secs[tab]["v"])
-                tb, ab = relocated_bytes(calls, int(toks[i - 2]), secs[0]["off"], secs[tab]["off"])
+                tb, ab = relocated_bytes(calls, int(toks[i - 2]), secs[0]["off"], secs[tab]["off"], {k: v["off"] for k, v in secs.items()})
                 if len(ab) != 8 * used_slots:
                     out.append(("C10/harness/generator", "generator announced %d used slots, the sites need %d" % (used_slots, len(ab) // 8)))
                 secs[0]["data"], secs[tab]["data"] = tb, ab
+            elif calls:
+                tb, _ = relocated_bytes(calls, int(toks[i - 2]), secs[0]["off"], 0, {k: v["off"] for k, v in secs.items()})
+                secs[0]["data"] = tb
             sizes_known = False
             last_flat_end = None
         elif op == "P":
@@ -753,8 +816,15 @@ def run(ck):
     ck.log("stream: %d scenarios (%d from corpus), %d operations" % (len(lines), ncorpus, sum(len([t for t in l.split() if t.isalpha() and len(t) == 1]) for l in lines)))
     # the extracted model needs ~15 ms CPU per scenario; the timeout only guards against a hang (a loaded machine is not a verdict)
     tmo = 1500 if ck.tier == "quick" else 10000
+    # detector for the residual flatten defect (empty section not placed finally): a tree without fixes/C10-flatten-empty-section-offset
+    # is REPORTED by the monitor (violation / known finding) and compared with the model of that tree (`--mid`), so that every other
+    # answer is still checked
+    probe = vlib.sh([impl], inp="N 2e7331 8 0 N 2e7332 8 0 Z 0 66 0 5 Z 2 8 0 9 F L\n", timeout=60)[1]
+    margs = ["--mid"] if ";1,0,8,66,0,0;" in probe else []
+    if margs:
+        ck.log("this tree places empty sections provisionally (no backward step in flatten): comparing with the model variant --mid")
     ri = run_sharded(impl, lines, timeout=tmo)
-    rm = run_sharded(model, lines, timeout=tmo) if not isinstance(ri, tuple) else []
+    rm = run_sharded(model, lines, timeout=tmo, args=margs) if not isinstance(ri, tuple) else []
     if isinstance(ri, tuple):
         # the real CodeHolder died (signal / abort) while executing a scenario: that scenario is the failing input
         sc = ri[3]
@@ -788,7 +858,7 @@ def run(ck):
             nontrivial.add(sc)
         if x != y:
             disagreements += 1
-            if not js:
+            if all(ck.match_finding(k) is not None for k, _ in js):      # nothing NEW explains the difference
                 k, a, b = first_diff(x, y)
                 yp = vlib.sh([model, "--pinned"], inp=sc + "\n", timeout=120)[1].strip()
                 hint = ""
@@ -840,7 +910,7 @@ def run(ck):
                  "a scenario is non-trivial when flatten succeeded on it and its dumps list more than two sections (distinct scenario lines counted)",
          "samples": samples, "scenarios": len(lines), "corpus_scenarios": ncorpus, "scenarios_judged_by_oracle": judged,
          "traces_validated_against_impl": len(lines), "model_vs_impl_disagreements": disagreements,
-         "sanitizer_scenarios": len(sl), "sanitizer_reports": san_reports,
+         "model_variant": (margs[0] if margs else "final"), "sanitizer_scenarios": len(sl), "sanitizer_reports": san_reports,
          "input_distribution": dict(counters)},
         assumptions=["the C++ harness calls the real CodeHolder::{new_section, section_by_name, flatten, code_size, copy_flattened_data, copy_section_data, "
                      "relocate_to_base} of /repo's working tree; section contents are fabricated through the public CodeBuffer::_size / Section::_virtual_size "
